@@ -243,6 +243,11 @@ func nonNegative(in ssa.Instruction, v ssa.Value) bool {
 				return true
 			}
 		}
+		if z, isC := constInt(bo.Y); isC && z == -1 {
+			if (bo.Op == token.LEQ && !ec.Pol) || (bo.Op == token.GTR && ec.Pol) {
+				return true
+			}
+		}
 	}
 	// loop counter starting at a non-negative constant and only incremented by a positive constant
 	if ph, ok := v.(*ssa.Phi); ok {
